@@ -106,7 +106,7 @@ def run(ctx):
     R.rule("C14-R4", "32-bit narrowing of a suffix-less integer literal is dominated by a magnitude test", floor=2)
     R.rule("C14-R6", "operator table: relative precedence of the binary operators and associativity of every level agree with the C++ grammar", floor=13)
     R.rule("C14-R7", "?: converts the selected operand to the common type of its second and third operands", floor=1)
-    R.rule("C14-R8", "#if / #elif operands are widened to intmax_t / uintmax_t before folding", floor=2)
+    R.rule("C14-R8", "#if / #elif operands are widened to intmax_t / uintmax_t before folding", floor=3)
     R.rule("C14-R9", "the ambiguous spellings + - * & are binary after an operand", floor=1)
     R.rule("C14-R5", "integer division/modulo guarded against a zero divisor and against the overflowing quotient min()/-1", floor=8)
 
@@ -315,7 +315,7 @@ def run(ctx):
         raise AnalysisBroken("lineIsTrue: expressionParser::parse call not found")
     lcfg = lt.cfg
     LIN = lcfg.facts_in()
-    for want_t, flag in (("uint64_", "isUnsigned"), ("int64_", "isSigned")):
+    for want_t, flag in (("uint64_", "isUnsigned"), ("int64_", "isSigned"), ("int64_", "isBool")):
         conv = []
         for x in lt.walk():
             if is_call(x) and callee(x) == P + "to" and CTYPE.get(x.get("csig", "").split("(")[0].strip()) == want_t:
@@ -323,9 +323,10 @@ def run(ctx):
                 fs_ = {(noid_(k), pol) for (k, pol) in lcfg.facts_at(x, LIN)}
                 if par and lcfg.before(par[0], parse[0]) and any(pol and flag in k for (k, pol) in fs_):
                     conv.append(x)
-        R.ob("C14-R8", bool(conv), lt.q, "%s literals widened to %s before the condition is parsed" % ("unsigned" if flag == "isUnsigned" else "signed", want_t.rstrip("_")),
+        R.ob("C14-R8", bool(conv), lt.q, "%s literals widened to %s before the condition is parsed" % ({"isUnsigned": "unsigned", "isSigned": "signed", "isBool": "bool (the value of defined())"}[flag], want_t.rstrip("_")),
              lt.site(conv[0]) if conv else lt.relfile,
              "every primitive token of the line is converted under %s()" % flag if conv else
+             "the value of `defined(X)` reaches the folder as a bool: `#if ~defined(A)` computes !value instead of the complement in intmax_t (cpp: ~1 is -2, true)" if flag == "isBool" else
              "the line is handed to the typed folder as it is: `#if 0xFFFFFFFF + 1` and `#if (1 << 31) > 0` are false, `#if -1 == 0xFFFFFFFF` is true (cpp: the opposite)")
 
     # ---- R4 --------------------------------------------------------------------------
